@@ -11,6 +11,8 @@ PROPS = {
         "streams": [
             {"stream": "fmt", "families": ALL_FAMILIES + ",mlsfam,regions", "quick": 8000, "thorough": 40000, "binding": FMT_BINDING_C01},
             {"stream": "lex", "families": ALL_FAMILIES, "quick": 1500, "thorough": 20000, "name": "lexer"},
+            # the closed model of the whole formatter (C01_format_full) against make_formatter().format(): output bytes
+            {"stream": "full", "name": "whole", "families": ALL_FAMILIES + ",mlsfam,mlsshift,regions,asmreg,c11mini", "quick": 6000, "thorough": 60000, "binding": ["out", "*"]},
         ],
         "oracle_prefixes": ["c01", "glue", "lex"],
         "abnormal_binding": False,
@@ -46,6 +48,9 @@ PROPS = {
         "streams": [
             {"stream": "fmt", "families": "seeds_sample,grammar,layout,regions,mlsfam,marked,boundary,boundary,mlscancel,mlsshift,mlsshift,condinline", "quick": 9000, "thorough": 50000,
              "binding": ["prec", "wp", "wcn", "sx", "out", "*"], "args": {"oracles": "c03"}},
+            # idempotence is a property of the whole pipeline, the search included: the closed model against the real formatter
+            {"stream": "full", "name": "whole", "families": "seeds_sample,grammar,layout,marked,boundary,c11mini,mlsfam,mlsshift,mlscancel,condinline,regions", "quick": 6000, "thorough": 60000, "binding": ["out", "*"]},
+            {"stream": "wsearch", "name": "search", "families": "seeds_sample,grammar,layout,marked,boundary,c11mini,mlsfam,mlsshift,mlscancel,condinline,regions", "quick": 4000, "thorough": 40000, "binding": ["ws", "wp", "wcn", "*"]},
         ],
         "oracle_prefixes": ["c03", "glue"],
         "abnormal_binding": False,
@@ -61,6 +66,8 @@ PROPS = {
             {"stream": "fmt", "families": "marked", "quick": 15000, "thorough": 40000, "binding": ["cl", "wp", "sx", "out", "*"], "args": {"oracles": "c05"}},
             # lines and levels come from the parser: the exact Lean model of its control flow against the real parser
             {"stream": "pfull", "name": "parser", "families": "marked,grammar,layout,seeds_sample", "quick": 10000, "thorough": 40000, "binding": ["pl", "*"]},
+            # where lines start and how deep is decided by the search: its exact model against the solutions the real search returns
+            {"stream": "wsearch", "name": "search", "families": "marked,grammar,layout,seeds_sample,c11mini", "quick": 6000, "thorough": 40000, "binding": ["ws", "wp", "wcn", "*"]},
         ],
         "oracle_prefixes": ["c05", "glue"],
         "abnormal_binding": False,
@@ -77,6 +84,8 @@ PROPS = {
             {"stream": "fmt", "families": "relayout", "quick": 6250, "thorough": 40000, "binding": ["pre", "out", "*"], "args": {"oracles": "c06"}},
             # ParserKindsOnly: the Lean model of the parser reads token kinds (and line-break flags, used inside asm blocks only) and nothing else
             {"stream": "pfull", "name": "parser", "families": "layout,grammar,seeds_sample,regions", "quick": 7500, "thorough": 30000, "binding": ["pk", "pl", "*"]},
+            # WrapDeterministic: the model of the search reads kinds, lengths, lines and settings, nothing of the original layout
+            {"stream": "wsearch", "name": "search", "families": "layout,grammar,seeds_sample,regions,marked", "quick": 5000, "thorough": 30000, "binding": ["ws", "wp", "wcn", "*"]},
             {"stream": "fmt", "name": "pairs", "families": "pairs", "quick": 30000, "thorough": 200000, "binding": ["pre", "*"], "args": {}},
             {"stream": "fmt", "name": "pairs_enum", "families": "pairs_enum", "quick": 10000, "thorough": 831875, "multi_seed": False,
              "binding": ["pre", "*"], "args": {}},
@@ -97,6 +106,8 @@ PROPS = {
             {"stream": "fmt", "families": "seeds_sample,grammar,layout,marked,boundary", "quick": 7500, "thorough": 40000, "binding": ["out", "*"], "args": {"oracles": "c11"}},
             # every wrap column of small single-statement programs (full sweep of the three clauses)
             {"stream": "fmt", "name": "mini", "families": "c11mini", "quick": 1500, "thorough": 20000, "binding": ["out", "*"], "args": {"oracles": "c11"}},
+            # the search itself as an exact model (penalties, pruning, cache, heap order): its solutions against the real search's, at every configuration drawn
+            {"stream": "wsearch", "name": "search", "families": "seeds_sample,grammar,layout,marked,boundary,c11mini", "quick": 6000, "thorough": 40000, "binding": ["ws", "wp", "wcn", "*"]},
         ],
         "oracle_prefixes": ["c11", "glue"],
         "abnormal_binding": False,
@@ -116,6 +127,8 @@ PROPS = {
             {"stream": "parse", "families": "soup,bytes,mutate,directives,dirsoup,layout", "quick": 7500, "thorough": 40000, "name": "counters"},
             # the total, fuel-bounded Lean model of the whole parser answers (never `model-none`: no panic site reached, fuel 200*(n+10) not exhausted) and agrees
             {"stream": "pfull", "name": "parser", "families": "soup,bytes,mutate,dirsoup,deepnest", "quick": 10000, "thorough": 40000, "binding": ["pk", "pl", "*"]},
+            # the closed, total model of the whole formatter answers (never `model-none`) and agrees, on ill-formed input too
+            {"stream": "full", "name": "whole", "families": "soup,bytes,mutate,dirsoup,lexfam", "quick": 6000, "thorough": 40000, "binding": ["out", "*"]},
             {"stream": "fmt", "name": "enum", "families": "soup_enum", "quick": 7500, "thorough": 1010100, "multi_seed": False,
              "binding": ["*"], "args": {"timeout_ms": 20000}},
         ],
